@@ -44,6 +44,14 @@ def run_lock_check(tier, replay=None):
             {"a": "clone", "h": 1, "p": 1}, {"a": "dropcas", "h": 1, "p": 1}, {"a": "openbad", "h": 2, "p": 2}, {"a": "drop", "h": 1, "p": 1},
             {"a": "openbad", "h": 2, "p": 2}, {"a": "open", "h": 2, "p": 2}, {"a": "openbad", "h": 3, "p": 1}, {"a": "kill", "h": 0, "p": 2},
             {"a": "openbad", "h": 3, "p": 1}, {"a": "open", "h": 3, "p": 1}]})
+        # the owner's own orphan clean-up must not give the directory away (whatever it unlinks), and the directory is owned
+        # under every name it can be reached by: a symbolic link, a spelling with "." components
+        scen.append({"id": "C11-cleanup-alias", "np": 2, "nh": 3, "races": 0, "actions": [
+            {"a": "open", "h": 1, "p": 1}, {"a": "put", "h": 1, "p": 1}, {"a": "cleanup", "h": 1, "p": 1}, {"a": "open", "h": 2, "p": 2},
+            {"a": "open", "h": 3, "p": 1}, {"a": "openalias", "h": 2, "p": 2}, {"a": "openalias", "h": 3, "p": 1}, {"a": "dropcas", "h": 1, "p": 1},
+            {"a": "cleanup", "h": 1, "p": 1}, {"a": "openalias", "h": 3, "p": 1}, {"a": "open", "h": 2, "p": 2}, {"a": "drop", "h": 1, "p": 1},
+            {"a": "openalias", "h": 2, "p": 2}, {"a": "open", "h": 3, "p": 1}, {"a": "openalias", "h": 3, "p": 1}, {"a": "cleanup", "h": 2, "p": 2},
+            {"a": "kill", "h": 0, "p": 2}, {"a": "openalias", "h": 3, "p": 1}, {"a": "open", "h": 1, "p": 1}]})
         # a grandchild spawned while the handle was open must not keep the lock; Async mode releases the lock on drop too
         scen.append({"id": "C11-spawn", "np": 2, "nh": 3, "races": 0, "actions": [
             {"a": "open", "h": 1, "p": 1}, {"a": "spawn", "h": 1, "p": 1}, {"a": "open", "h": 2, "p": 2}, {"a": "drop", "h": 1, "p": 1},
